@@ -20,8 +20,12 @@ THEOREMS = [
     'Rd.performRead_spec', 'Rd.peek_refines', 'Rd.tailPeek_spec', 'Rd.finishRU_consume_peek', 'Rd.finalize_consume_of_notfound',
     'Rd.fragment_first_occ', 'Rd.find_spec', 'Rd.firstOcc_spec',
     # --- ReaderC14.lean: the public wrappers
-    'Rd.read_refines', 'Rd.pipe_refines', 'Rd.exhaust_refines', 'Rd.readUntil_refines', 'Rd.pipeLoop_refines',
+    'Rd.read_refines', 'Rd.readUntil_refines_all', 'Rd.readUntil_refines', 'Rd.pipeUntil_refines', 'Rd.pipeUntil_consume_refines',
+    'Rd.pipe_refines', 'Rd.exhaust_refines', 'Rd.readline_refines', 'Rd.readlines_refines',
+    'Rd.pipeLoop_refines', 'Rd.pipeUntilLoop_refines', 'Rd.pipeUntil_loop', 'Rd.pipeUntil_consume_eq', 'Rd.readlinesLoop_refines',
+    'Rd.specLines_fuel', 'Rd.stopAt_step', 'Rd.lineStop_of_stopAt', 'Rd.lineStop_big', 'Rd.normalize_irrelevant', 'Rd.fuel_enough',
     'Rd.abs_length_le', 'Rd.take_normalize', 'Rd.performRead_chunk', 'Rd.readCore_chunk', 'Rd.stopAt_big', 'Rd.stopAt_normalize',
+    'Rd.stopAt_le_length', 'Rd.stopAt_zero', 'Rd.no_occ_nil',
     # --- ReaderProofs.lean: the file-like source with any short-read oracle is a LawfulSource; _perform_read; _read
     'Rd.Src.read_fst', 'Rd.Src.read_snd_data', 'Rd.capOf_le', 'Rd.capOf_pos', 'Rd.Src.readLen_le_size', 'Rd.Src.readLen_le_data',
     'Rd.Src.readLen_pos', 'Rd.performReadLoop_spec', 'Rd.performReadLoop_full', 'Rd.drop_take_append_drop', 'Rd.take_len_add',
@@ -48,7 +52,13 @@ STATEMENTS = {
     'Rd.read_refines': 'read(size) with size None, -1 or >= 0 (i.e. _normalize_size followed by _read): returns the next size bytes - everything for None/-1 or when fewer remain - leaves exactly the rest, keeps the invariant, pos <= len and the chunk size',
     'Rd.pipe_refines': 'pipe() hands out exactly abs(r) (all that is still to come, in order, nothing twice) and leaves nothing; the fuel of the model loop is never exhausted',
     'Rd.exhaust_refines': 'after exhaust() nothing is left to read and the invariant holds',
-    'Rd.readUntil_refines': 'read_until(d, size) with the delimiter not consumed, size None/-1/>= 0, 1 <= len(d) <= chunk and the normalised size within the 128-chunk join limit: returns abs(r)[:stopAt d abs(r) size] and leaves the rest',
+    'Rd.readUntil_refines_all': 'read_until(d, size) with the delimiter not consumed, size None/-1/>= 0, 1 <= len(d) <= chunk, on BOTH branches (in-memory join up to 128 chunks, pipe_until above): returns abs(r)[:stopAt d abs(r) size] - up to the first occurrence of d, size bytes or the end - and leaves exactly the rest',
+    'Rd.readUntil_refines': 'the same for the branch below the 128-chunk join limit',
+    'Rd.pipeUntil_refines': 'pipe_until(d) without consuming the delimiter writes exactly abs(r)[:stopAt d abs(r) size] (the pieces of the chunk-wise loop concatenate to one read_until) and leaves the rest; the loop fuel is never exhausted',
+    'Rd.pipeUntil_consume_refines': 'pipe_until(d, consume_delimiter=True) writes the same bytes; if the cursor is then at d it steps over it (abs = rest after the delimiter), otherwise it raises DelimiterError and the cursor stays just behind what was written',
+    'Rd.readline_refines': 'readline(size), size None/-1/>= 0: returns abs(r)[:lineStop] - through the first LF, at most size bytes, at most to the end of the declared data - and leaves exactly the rest',
+    'Rd.readlines_refines': 'readlines(hint) returns exactly linesOf(abs(r), hint) - the lines cut off the flat text one after the other until it is used up or (hint >= 0) the total reaches hint - and leaves exactly the rest; the loop fuel of the model is irrelevant (specLines_fuel)',
+    'Rd.stopAt_step': 'read_until(d, m) either stopped early (then any larger cap stops at the same place and a further read_until returns nothing) or returned m bytes and a larger request continues on the rest: stopAt d A (m+n) = m + stopAt d (A.drop m) n',
     'Rd.pipeLoop_refines': 'the read(chunk_size)-until-empty loop of pipe(), from any state satisfying the invariant with enough fuel: output = accumulator ++ abs(r), nothing left',
     'Rd.abs_length_le': 'what is still to come is never longer than _normalize_size(None) = remaining budget + buffered bytes',
     'Rd.performRead_spec': '_perform_read(size) returns exactly the next min(size, |available|) declared bytes for every short-read behaviour of the source, advances the source by exactly that, never reads beyond the remaining budget, and zeroes the budget at a premature EOF',
@@ -87,11 +97,11 @@ RULE = ('random part: data over {a,b,CR,LF,-} (uniform or delimiter-sparse) of l
         'parents of a live child and use invalid delimiters (model comparison only from there on). Grid part: every data string up to length 2 (quick) / 4 (thorough) x chunk sizes x '
         'source patterns x every history up to length 2 (quick) / 3 (thorough) over a fixed op alphabet (sync 18 ops, async 17 ops) incl. delimit/pop. '
         'non-trivial = some operation returned data; distinct = distinct (reader kind, construction, history)')
-PARTIAL = ('Proved for the sync reader (any lawful source): _perform_read, _read, read(size), peek, _read_until and read_until(d, size) without delimiter consumption (below the 128-chunk join '
-           'limit), pipe, exhaust, every history of _read/_read_until calls, and the consume_delimiter tail for the three loop exits that do not locate the delimiter. Not proved (carried by '
-           'correspondence + oracle): consume_delimiter=True on the two exits that locate the delimiter, the read_until -> pipe_until switch above 128 chunks and pipe_until itself, readline, '
-           'readlines, delimit_refines_subcursor (Delim as a LawfulSource), and everything about the async reader (AsyncReader.lean has no theorems; nested async readers are not in the model '
-           'and are checked by the oracle only).')
+PARTIAL = ('Proved for the sync reader over any lawful source (= every chunking): _perform_read, _read, read, peek, _read_until / read_until without delimiter consumption (both the join and the '
+           'pipe_until branch), pipe_until with and without delimiter consumption, pipe, exhaust, readline, readlines, every history of _read/_read_until calls, and the consume_delimiter tail of '
+           '_read_until for the three loop exits that do not locate the delimiter. Not proved (carried by correspondence + oracle): read_until(consume_delimiter=True) below the join limit on the two '
+           'exits that locate the delimiter, delimit_refines_subcursor (Delim as a LawfulSource - nested readers), a single history theorem over all public operations, and everything about the '
+           'async reader (AsyncReader.lean has no theorems; nested async readers are not in the model and are checked by the oracle only).')
 JOBS = {'quick': 4, 'thorough': 16}
 
 ALPH = b'ab\r\n-'
@@ -1059,10 +1069,10 @@ def run(ctx):
 
 LEVEL_TEXT = ('Machine-checked refinement proofs (Lean 4) for the synchronous BufferedReader, stated for an arbitrary lawful source so that "every chunking" is a universally quantified '
               'type-class argument: _perform_read returns exactly the requested declared bytes under every short-read pattern; _read (5 branches), peek and _read_until (6 loop exits, '
-              'cross-chunk fragment test, backlog, look-ahead chunk) refine the flat cursor, so do the public read(size), read_until(d, size), pipe() and exhaust(), and every history of _read/_read_until calls (history_refines_cursor). The models '
+              'cross-chunk fragment test, backlog, look-ahead chunk) refine the flat cursor, so do the public read, read_until (delimiter not consumed), pipe_until (with and without consuming), pipe, exhaust, readline and readlines, and every history of _read/_read_until calls (history_refines_cursor). The models '
               '(sync incl. nested delimited readers; async root reader) are tied to falcon/util/reader.py and falcon/asgi/reader.py on every run by a differential correspondence that '
               'compares return values, exceptions, the exact sizes requested from the source (sync) and tell()/eof (async); an independent flat-cursor oracle written from the statement '
               'decides failing inputs for both readers, including two levels of delimited sub-readers.')
-LEVEL_NOTE = ('Trusted: Lean kernel + standard axioms, the correspondence harness, the Cur oracle. Partial: consume_delimiter=True on the delimiter-locating exits, pipe_until (and the '
-              'read_until switch to it above 128 chunks), readline, readlines, delimit and the whole async reader are carried by correspondence + oracle, not by theorems.')
+LEVEL_NOTE = ('Trusted: Lean kernel + standard axioms, the correspondence harness, the Cur oracle. Partial: read_until(consume_delimiter=True) on the delimiter-locating exits, delimit (nested readers) '
+              'and the whole async reader are carried by correspondence + oracle, not by theorems.')
 TECHNIQUE = 'Lean 4 refinement proof (reader model over any lawful source -> flat cursor) + differential correspondence model vs. real code + statement oracle (flat cursor with sub-cursors)'
